@@ -152,6 +152,7 @@ func threadRun(L *LState) {
 			if parent := L.Parent; parent != nil {
 				L.closeUpvalues(0) // the coroutine is dead: detach every closure from its registers
 				if L.wrapped {
+					L.SetTop(0) // the registry may be completely full (registry overflow): make room for the error value
 					L.Push(lv)
 					L.G.CurrentThread = parent
 					L.Parent = nil
